@@ -198,6 +198,9 @@ func (b *Billet) incrementRefAndStore(h util.Uint256, bs []byte) {
 		data, err = b.Store.Get(key)
 		if err == nil {
 			cnt = int32(binary.LittleEndian.Uint32(data[len(data)-4:]))
+			// The slice belongs to the store (which may be flushing it right
+			// now), the counter must not be updated in place.
+			data = bytes.Clone(data)
 		}
 		cnt++
 		if len(data) == 0 {
